@@ -356,7 +356,7 @@ class HarnessResult:
         self.cmd = ""
 
 
-_RANK = {"FAILURE": 3, "UNDETERMINED": 2, "UNREACHABLE": 1, "SUCCESS": 0}
+_RANK = {"FAILURE": 3, "UNDETERMINED": 2, "SUCCESS": 1, "UNREACHABLE": 0}
 
 
 def parse_kani_output(h, out, res):
